@@ -203,12 +203,14 @@ func (r *replicator) processOne(ctx context.Context, wg *sync.WaitGroup) error {
 		return err
 	}
 
+	fetched := true
 	if err := r.processItems(ctx, wg, e); err != nil {
 		r.logger.Warn("process item ended", zap.Error(err))
+		fetched = false
 	}
 
 	// mark this process has done
-	r.processEntryDone(e)
+	r.processEntryDone(e, fetched)
 	return nil
 }
 
@@ -348,13 +350,18 @@ func (r *replicator) waitForProcessSlot(ctx context.Context) (e processItem, err
 	return
 }
 
-func (r *replicator) processEntryDone(item processItem) {
+func (r *replicator) processEntryDone(item processItem, fetched bool) {
 	r.muProcess.Lock()
 
 	r.taskInProgress--
 
-	// remove hash from queued list
-	r.tasks[item.GetHash()] = stateFetched
+	if fetched {
+		// remove hash from queued list
+		r.tasks[item.GetHash()] = stateFetched
+	} else {
+		// the fetch failed or was cancelled: forget the hash so that it can be requested again
+		delete(r.tasks, item.GetHash())
+	}
 
 	// if there no more task to proceed, trigger idle method
 	if r.isIdle() {
